@@ -6,6 +6,52 @@ import os
 HERE = os.path.dirname(os.path.dirname(os.path.abspath(__file__)))
 
 CHECKS = {
+    'C02': dict(
+        category='exploration', design_ref='DESIGN.md section 3, C02',
+        technique='bounded-exhaustive enumeration of equation blocks x solver configurations run on the real EquationSolver; three-valued residual oracle derived from the stop test',
+        text='Every block of the menu product (2 and 3 variables, plain and dressed with lag/exogenous/decorative chain/alias/initial condition) x reduction x tolerance x cap, plus '
+             'divergence, transient-error, non-linear and user-function families: on a normal return every value must be finite, lag/exogenous/derived-only variables exact, simultaneous residuals <= 2B.',
+        note='Trusted: the bound B (proved from the documented stop test), Python eval as the meaning of a right-hand side. Gap 2B/20B; zero indeterminate cases on the current tree.'),
+    'C03': dict(
+        category='exploration', design_ref='DESIGN.md section 3, C03',
+        technique='bounded-exhaustive differential enumeration: every block of the alias/decorative feature product solved with reduction on and off by the real solver, series compared value by value',
+        text='7 504 blocks (quick): core x alias target kind x chain length x declaration order x alias user x decorative tree x initial-condition position x lag source; same variable set, '
+             'k=0 exactly equal, k>=1 bit-for-bit (acyclic) or within a gap at tolerance 1e-10 (cyclic).',
+        note='Alias cycles excluded (documented user error). Trusted: nothing beyond the two runs of the implementation itself.'),
+    'C05': dict(
+        category='model_checking', design_ref='DESIGN.md section 3, C05',
+        technique='explicit enumeration of construction histories (request point x variable x owner x embedding places x country configuration) on the real objects + all topology specs; closure/canonical-name/placeholder/meaning oracle on the emitted text via the independent reader',
+        text='5 040 histories (quick): GetVariableName requested right after the sector exists / after all sectors / after early full-code generation (LogInfo), embedded in up to 2 of 10 places, '
+             'with one country, two countries, an external sector, or a country added after the early generation; plus 229 topology specs. Every left-hand side once, canonical names, closed, no _<id>__ token, meaning preserved.',
+        note='Trusted: mc/exact.read_block and evaluator. A name that was canonical when handed out and is embedded by the user before a further country is added cannot be rewritten by any library; that history is outside the alphabet.'),
+    'C10': dict(
+        category='exploration', design_ref='DESIGN.md section 3, C10',
+        technique='bounded-exhaustive enumeration of input forms (exogenous specification x length x initial condition position/value x horizon source x time variable x reduction) on the real solver and Model; exact == oracle',
+        text='20 466 cases (quick) through EquationSolver and Model: lengths horizon+1, k axis, exogenous series equal to the supplied prefix, k=0 equal to the stated initial condition for 7 kinds of variable, lag identity, t == k, '
+             'short/unevaluable input rejected with no period produced.',
+        note='An int scalar may be rejected or broadcast. Rejection = any exception.'),
+    'C11': dict(
+        category='exploration', design_ref='DESIGN.md section 3, C11',
+        technique='bounded-exhaustive enumeration of failure families x caps x tolerances (sweep count read from the public step trace, wall-clock watchdog), of all small affine contractions, and of the complete stdlib name lists',
+        text='(a) 13 failure families switched on in period 1..3 x 7 caps x 2 tolerances x reduction: ValueError/ConvergenceError, <= cap+1 sweeps, equal-length series identical to the shorter-horizon solve; '
+             '(b) 26 912 two-variable contractions + n=12 worst cases + non-linear contractions solved within the default cap; (c) 251 names x 3 positions + 182 RHS tokens x reduction x entry point, 10 ill-formed declarations refused with no numbers.',
+        note='A case exceeding 20 s wall-clock counts as unbounded work. Contraction => convergence is covered on the stated grid, not proved over the reals.'),
+    'C14': dict(
+        category='exploration', design_ref='DESIGN.md section 3, C14',
+        technique='bounded-exhaustive enumeration of line orders x spacings x lag spellings x hostile comments; real EquationParser compared with the independent classifier; comment-free twin differential; Model description differential',
+        text='35 067 blocks (quick): all permutations of 6-line endogenous sections (incl. names ending in 0, comment-only lines containing "=", malformed lines), 3 spacings, 3 lag spellings, 14 hostile comment texts on every line, '
+             '5 marker spellings, descriptions/long names through Model.',
+        note='Trusted: mc/exact.read_block (strips the comment first). Lags inside larger expressions and names containing the marker word are outside the alphabet (as in the property).'),
+    'C15': dict(
+        category='exploration', design_ref='DESIGN.md section 3, C15',
+        technique='bounded-exhaustive enumeration of one-/two-state recursive systems x search settings on the real CalculateInitialSteadyState; accepted states stepped once more with exogenous frozen; deep snapshot comparison',
+        text='33 264 (system, settings) cases (quick): acceptance implies no non-excluded variable moves by more than 2 tol (abs or rel; violated only if both >= 20 tol), rejection is NoEquilibriumError/ValueError, solver inputs untouched.',
+        note='Tolerances {1e-4, 1e-3}: with a looser steady-state tolerance the search solver (which uses it as its sweep tolerance) leaves read-outs one sweep stale, which would make the verdict depend on solver accuracy rather than on steadiness.'),
+    'C20': dict(
+        category='exploration', design_ref='DESIGN.md section 3, C20',
+        technique='bounded-exhaustive enumeration of equation blocks -> real IterativeMachineGenerator -> import and run the emitted module (twice per generator object); residual/exactness/table oracle, differential against the in-process solver',
+        text='6 300 (block, configuration) cases (quick), two emissions each: module runs, MaxTime+1 values, residuals <= 2B, exogenous exact, agreement with EquationSolver from equal k=0 values, header t-first without duplicates.',
+        note='Blocks restricted to contraction factor <= 0.5 (the generated solver has no damping). Files live under /var/tmp/sfcv-c20-<pid> and are removed.'),
     'C01': dict(
         category='model_checking', design_ref='DESIGN.md section 3, C01',
         technique='deviation-bounded exhaustive enumeration of model topologies built with the real constructors; exact rational solution of the emitted equations; conservation sum checked in every (spec, period) state',
